@@ -15,10 +15,12 @@ import (
 	"io/ioutil"
 	"math/rand"
 	"os"
+	"time"
 
 	"github.com/pingcap/kvproto/pkg/metapb"
 	"github.com/pingcap/log"
 	"github.com/tikv/pd/server/core"
+	"github.com/tikv/pd/server/core/storelimit"
 	"github.com/tikv/pd/server/schedule/operator"
 	"go.uber.org/zap"
 	"verif/harness/lib/ev"
@@ -207,6 +209,173 @@ func directedWaitingCase(r *ev.Run, n, size int, same bool, change, trig string)
 	w.settle()
 }
 
+// ---- directed family: a region-cache update lands INSIDE a controller call ------------------------------
+//
+// A region heartbeat updates the cache under the cluster's lock, the controller works under its own:
+// the update can fall between any two cache reads of one controller call. For every scenario below the
+// call is first run undisturbed to count its cache reads n, then repeated on an identical world with a
+// {conf change, leader change, eviction} of the region placed before read 1..n (a complete grid).
+// Judged by the ordinary oracles; "the region at that moment" is either view the cache held during the call.
+type raceScenario struct {
+	name  string
+	setup func(w *world) (target *reg, call func()) // target: the region whose cache entry is updated
+}
+
+func raceScenarios() []raceScenario {
+	fresh := func(w *world, k int) *reg { return w.regs[w.rids[k]] }
+	finishOp := func(w *world, t *opTrack) {
+		for i := 0; i < 12 && !t.done && t.last != operator.SUCCESS; i++ {
+			for len(t.g.inbox) > 0 {
+				_ = w.exec(t.g, 0, true)
+			}
+			w.putView(t.g)
+			if w.stepDone(t) {
+				return // the next heartbeat dispatch will find every step finished
+			}
+			w.heartbeat(t.g)
+		}
+	}
+	return []raceScenario{
+		{"AddOperator", func(w *world) (*reg, func()) {
+			g := fresh(w, 0)
+			return g, func() { w.submit(g, g.view, false, false, false, "add-peer") }
+		}},
+		{"AddOperator(admin)-replaces", func(w *world) (*reg, func()) {
+			g := fresh(w, 0)
+			w.submit(g, g.view, false, false, false, "add-peer")
+			return g, func() { w.submit(g, g.view, false, true, false, "transfer") }
+		}},
+		{"AddOperator(merge-pair)", func(w *world) (*reg, func()) {
+			g := fresh(w, 0)
+			return fresh(w, 1), func() { w.submit(g, g.view, false, false, false, "merge") }
+		}},
+		{"AddWaitingOperator(batch)", func(w *world) (*reg, func()) {
+			gs := []*reg{fresh(w, 0), fresh(w, 1), fresh(w, 2)}
+			return gs[1], func() { w.submitBatch(gs, true, []string{"add-peer", "transfer", "add-peer"}) }
+		}},
+		{"PromoteWaitingOperator", func(w *world) (*reg, func()) {
+			gs := []*reg{fresh(w, 0), fresh(w, 1)}
+			ts := w.submitBatch(gs, true, []string{"add-peer", "transfer"})
+			var run, wait *opTrack
+			for _, t := range ts {
+				if w.running[t.g.id] == t {
+					run = t
+				} else if t.waiting {
+					wait = t
+				}
+			}
+			if run == nil || wait == nil {
+				return nil, nil
+			}
+			rr := run
+			w.call(&callInfo{name: "RemoveOperator", g: run.g}, func() {
+				if w.oc.RemoveOperator(rr.op) {
+					rr.removedBy = "RemoveOperator"
+				}
+			})
+			return wait.g, func() { w.promote() }
+		}},
+		{"Dispatch(heartbeat)-finishes-and-promotes", func(w *world) (*reg, func()) {
+			gs := []*reg{fresh(w, 0), fresh(w, 1)}
+			ts := w.submitBatch(gs, true, []string{"transfer", "add-peer"})
+			var run, wait *opTrack
+			for _, t := range ts {
+				if w.running[t.g.id] == t {
+					run = t
+				} else if t.waiting {
+					wait = t
+				}
+			}
+			if run == nil || wait == nil {
+				return nil, nil
+			}
+			finishOp(w, run)
+			return wait.g, func() { w.heartbeat(run.g) }
+		}},
+		{"Dispatch(heartbeat)-mid-operator", func(w *world) (*reg, func()) {
+			g := fresh(w, 0)
+			ts := w.submit(g, g.view, false, false, false, "add-peer")
+			if len(ts) == 0 {
+				return nil, nil
+			}
+			for len(g.inbox) > 0 {
+				_ = w.exec(g, 0, true)
+			}
+			return g, func() { w.heartbeat(g) }
+		}},
+		{"Dispatch(push)", func(w *world) (*reg, func()) {
+			g := fresh(w, 0)
+			w.submit(g, g.view, false, false, false, "add-peer")
+			return g, func() { w.dispatchPush(g) }
+		}},
+		{"PushOperators", func(w *world) (*reg, func()) {
+			g := fresh(w, 0)
+			w.submit(g, g.view, false, false, false, "add-peer")
+			return g, func() { w.pushOperators() }
+		}},
+	}
+}
+
+// stepDone: does the region as pd sees it satisfy every step (so that the next dispatch ends the operator)?
+func (w *world) stepDone(t *opTrack) bool {
+	if t.g.view == nil {
+		return false
+	}
+	for i := 0; i < t.op.Len(); i++ {
+		if !t.op.Step(i).IsFinish(t.g.view) {
+			return false
+		}
+	}
+	return true
+}
+
+func raceFamily(r *ev.Run) {
+	layouts := []string{"1v* 2v 3v", "1v* 2v 3v", "1v* 2v 3v", "2v* 4v 6v"}
+	for si, sc := range raceScenarios() {
+		for _, kind := range []string{"none", "conf", "leader", "evict"} {
+			n := 1
+			for at := 1; at <= n && at <= 40; at++ {
+				rand.Seed(int64(9000 + si)) // pd's waiting buckets draw from the global source
+				rng := rand.New(rand.NewSource(int64(9000 + si)))
+				w, err := newWorld(r, rng, -1000-si, modeJoint, 6, 4, layouts)
+				if err != nil {
+					r.Inconclusive("race family: %v", err)
+					return
+				}
+				w.phase = "cache-update-inside-call:" + sc.name
+				w.evNo++
+				target, call := sc.setup(w)
+				if call == nil {
+					r.Count("race_family_setup_failed", 1)
+					w.close()
+					break
+				}
+				if kind != "none" {
+					w.inj = &injection{at: at, kind: kind, g: target}
+				}
+				w.evNo++
+				call()
+				if kind == "none" {
+					// reads of the decisive call (helpers make exactly one controller call last)
+					r.Count("race_family_scenarios", 1)
+					r.Count("race_family_cache_reads_"+sc.name, int64(w.lastReads))
+					w.settle()
+					w.close()
+					break
+				}
+				fired := w.inj == nil
+				w.inj = nil
+				if fired {
+					r.Count("race_family_cases", 1)
+					n = at + 1 // there may be a further read
+				}
+				w.settle()
+				w.close()
+			}
+		}
+	}
+}
+
 // ---- own steps only -----------------------------------------------------------------------------------------
 
 // ownOnly: each generated operator is executed to completion with nothing else touching its region.
@@ -337,6 +506,15 @@ func (w *world) randomLoop(events int) {
 		if g.dirty {
 			cs = append(cs, choice{"put-only", 8})
 		}
+		if len(regs) > 2 {
+			cs = append(cs, choice{"foreign-evict", 1})
+		}
+		if len(regs) < len(w.rids) {
+			cs = append(cs, choice{"add-on-gone-region", 1})
+		}
+		if w.finite {
+			cs = append(cs, choice{"store-limit-change", 3})
+		}
 		total := 0
 		for _, c := range cs {
 			total += c.w
@@ -410,11 +588,44 @@ func (w *world) randomLoop(events int) {
 			w.pushOperators()
 		case "promote":
 			w.promote()
+		case "foreign-evict":
+			// the region is swallowed by a neighbour outside this world while operators run / wait on it
+			w.foreignEvict(g)
+			r.Count("foreign_evictions", 1)
+		case "add-on-gone-region":
+			// a scheduler still holds the last snapshot of a region pd's cache has dropped
+			var gone []*reg
+			for _, id := range w.rids {
+				if o := w.regs[id]; o.view == nil && o.lastView != nil {
+					gone = append(gone, o)
+				}
+			}
+			if len(gone) == 0 {
+				continue
+			}
+			o := gone[rng.Intn(len(gone))]
+			w.submit(o, o.lastView, true, rng.Intn(4) == 0, rng.Intn(2) == 0, []string{"add-peer", "transfer", "remove-peer", "split"}[rng.Intn(4)])
+			r.Count("operators_built_for_gone_region", 1)
+		case "store-limit-change":
+			// the store limit configuration changes under the long-lived controller (it caches one bucket per store)
+			st := w.stores[rng.Intn(len(w.stores))]
+			rate := []float64{0.6, 6, 60, storelimit.Unlimited * 60}[rng.Intn(4)]
+			w.mc.SetStoreLimit(st, storelimit.AddPeer, rate)
+			w.mc.SetStoreLimit(st, storelimit.RemovePeer, rate)
 		case "status":
-			// read-only calls must not disturb anything
+			// read-only / housekeeping entry points must not disturb anything
 			w.call(&callInfo{name: "GetOperatorStatus", g: g}, func() {
 				_ = w.oc.GetOperatorStatus(g.id)
 				_ = w.oc.GetWaitingOperators()
+				_ = w.oc.GetOpInfluence(w.mc)
+				_ = w.oc.OperatorCount(operator.OpRegion)
+				_ = w.oc.GetHistory(time.Now().Add(-time.Hour))
+				w.oc.PruneHistory()
+				infl := operator.OpInfluence{StoresInfluence: map[uint64]*operator.StoreInfluence{}}
+				w.oc.GetFastOpInfluence(w.mc, infl)
+				if t := w.running[g.id]; t != nil {
+					_ = w.oc.ExceedStoreLimit(t.op)
+				}
 			})
 		case "exec", "exec-dup":
 			idx := 0
@@ -529,6 +740,8 @@ func main() {
 	}()
 	canonical(r)
 	directedWaiting(r)
+	raceFamily(r)
+	rand.Seed(seed)
 
 	worlds := r.Pick(450, 1400)
 	events := r.Pick(560, 700)
@@ -536,7 +749,15 @@ func main() {
 	modes := []string{modeJoint, modeJoint, modeJoint, modeDemote, modeLegacy}
 	for wi := 1; wi <= worlds; wi++ {
 		mode := modes[rng.Intn(len(modes))]
+		finiteLimits = rng.Intn(6) == 0
 		w, err := newWorld(r, rng, wi, mode, 4+rng.Intn(4), 3+rng.Intn(4), nil)
+		if w != nil {
+			w.finite = finiteLimits
+			if w.finite {
+				r.Count("worlds_with_finite_store_limits", 1)
+			}
+		}
+		finiteLimits = false
 		if err != nil {
 			r.Inconclusive("cannot build world: %v", err)
 			break
